@@ -60,6 +60,11 @@ import Proofs.FormatCall2Lex
 import Proofs.FormatPipeParse
 import Proofs.FormatFileLex
 import Proofs.FormatExpRangeText
+import Proofs.FormatStageRangeText
+import Proofs.FormatStageRange32
+
+import Proofs.FormatPipeRangeText
+import Proofs.FormatFileRangeText
 
 namespace Props.C09
 open Martian.Format
@@ -567,7 +572,10 @@ open Martian.Lexer (Bytes)
 /-- **formatGB round trip.**  For every `int64`-sized number of MB the text `formatGB` prints is
 exactly one numeric token (NUM_INT for a whole number of GB, NUM_FLOAT otherwise), also when a
 terminator byte (`,` …) and anything else follow, and reading the token back with
-`roundUpTo(·, 1024)` (exact decimal value, rounded away from zero) gives the same number of MB. -/
+`roundUpTo(·, 1024)` (exact decimal value, rounded away from zero) gives the same number of MB.
+This is a statement about the DIGITS `formatGB` prints (enough of them for the exact value to round
+back), not about the real parser, which rounds the literal to float32 first: that reading agrees
+below 256 GB only (`readGB32_inverts_formatGB`, F29), which is why `wfMB` is the smaller range. -/
 theorem formatGB_roundtrip (mb : Int) (hb : mb.natAbs < 2 ^ 63) :
     readGB (fmtGB mb) = some mb ∧ readGBTok (tokGB mb) = some mb ∧
     (∀ c r, isTerm c = true → Martian.Lexer.numTok false (fmtGB mb ++ c :: r) =
@@ -614,12 +622,15 @@ theorem formatGB_float32_witness :
     readGB [0x30, 0x2E, 0x35, 0x30, 0x30, 0x30, 0x30, 0x30, 0x30, 0x30, 0x30, 0x31] = some 513 := by
   decide +kernel
 
-/-- **Resources.**  For every well-formed `Resources` (values of `int64` size, `special` valid
-UTF-8, `threads` a NUM_FLOAT in the float32 range or a canonical NUM_INT; any subset of the five
+/-- **Resources.**  For every well-formed `Resources` (`mem_gb` / `vmem_gb` below 256 GB in
+magnitude, `special` valid UTF-8, `threads` a NUM_FLOAT in the float32 range or a canonical NUM_INT; any subset of the five
 entries, including none): the printed block, followed by any text, lexes as `) using (` + its
 entries and then the tokens of that text; and `resources` reads these tokens, closed by `)`, back
 as the same `Resources`, leaving what follows.  (The printed order is the canonical one, so the
-result is identical, not just equal up to a normal form; printing it again gives the same text.) -/
+result is identical, not just equal up to a normal form; printing it again gives the same text.)
+Domain: mem_gb / vmem_gb below 256 GB in magnitude (`wfMB`): the range where the model's exact reading and the
+real parser's float32 reading agree (`readGB32_inverts_formatGB`); above it the real formatter is not a
+fixed point (F29, `formatGB_float32_witness`). -/
 theorem parse_format_resources (r : Res) (hw : wfRes r = true) :
     (∀ rest, lexAll (fmtRes r ++ rest) = (lexAll rest).map (toksRes r ++ ·)) ∧
     toksRes r = tRP :: .id sUsing :: tLP :: toksResBody r ∧
@@ -654,7 +665,10 @@ theorem parse_format_stage_tail (res : Option Res) (ret : Option (List Bytes))
   ⟨fun rest => lexOK_fmtTail res ret hw1 hw2 rest trivial, pTail_toks res ret hw1⟩
 
 /-- **A whole declaration**: the text of a stage without parameters carrying all three clauses
-reads back as the same stage; hence formatting is idempotent on it. -/
+reads back as the same stage; hence formatting is idempotent on it.
+Domain: mem_gb / vmem_gb below 256 GB in magnitude (`wfMB`): the range where the model's exact reading and the
+real parser's float32 reading agree (`readGB32_inverts_formatGB`); above it the real formatter is not a
+fixed point (F29, `formatGB_float32_witness`). -/
 theorem parse_format_stage0 (s : Stage0) (hw : wfStage0 s = true) :
     parseStage0 (fmtStage0 s) = some s ∧
     (∀ s', parseStage0 (fmtStage0 s) = some s' → fmtStage0 s' = fmtStage0 s) := by
@@ -897,13 +911,23 @@ out, chunk-in and chunk-out parameters of every shape `parse_format_params` cove
 texts of any length — hence whichever way the 35/25 cut-offs of `getWidths` and the 30/20 quirk of
 `Stage.format` fall —, every language, a command with arguments, split or not, any `Resources`
 incl. negative and fractional `mem_gb`, any retain list) the reader accepts the printed text and
-returns exactly the stage. -/
+returns exactly the stage.
+Domain: mem_gb / vmem_gb below 256 GB in magnitude (`wfMB`): the range where the model's exact reading and the
+real parser's float32 reading agree (`readGB32_inverts_formatGB`); above it the real formatter is not a
+fixed point (F29, `formatGB_float32_witness`).  The same statement for the
+reader with the REAL float32 reading: `parse32_format_stage` below. -/
 theorem parse_format_stage (s : Stage) (hw : wfStage s = true) : parseStage (fmtStage s) = some s :=
   parseStage_fmtStage s hw
 
-/-- **Idempotence.**  If a text reads as a well-formed stage, the formatter's output for it reads
-as the same stage, and whatever the output reads as prints to the same output again: formatting
-the output changes nothing. -/
+/-- **Idempotence (AST side).**  This is `parse_format_stage` plus the fixed point: for a well-formed
+stage `s` the printed text reads as `s`, and whatever the printed text reads as prints to the same
+text again.  The hypothesis `_h` (some text `t` reads as `s`) is NOT used — it only records where `s`
+comes from; the statement is about `wfStage s`.  The TEXT-side statement (for every source text the
+real parser accepts, under explicit exception hypotheses, with the real float32 reading) is
+`format_preserves_accepted_stage32_partial`.
+Domain: mem_gb / vmem_gb below 256 GB in magnitude (`wfMB`): the range where the model's exact reading and the
+real parser's float32 reading agree (`readGB32_inverts_formatGB`); above it the real formatter is not a
+fixed point (F29, `formatGB_float32_witness`). -/
 theorem format_stage_idem (t : Bytes) (s : Stage) (_h : parseStage t = some s) (hw : wfStage s = true) :
     parseStage (fmtStage s) = some s ∧
     (∀ s', parseStage (fmtStage s) = some s' → fmtStage s' = fmtStage s) := by
@@ -912,6 +936,35 @@ theorem format_stage_idem (t : Bytes) (s : Stage) (_h : parseStage t = some s) (
   rw [parseStage_fmtStage s hw] at h
   injection h with h
   rw [h]
+
+/-- the resource conjunct of `wfStage` is `stageMB32Valid` (`wfMB` is the 256 GB bound) -/
+theorem wfStage_below_256GB (s : Stage) (hw : wfStage s = true) : stageMB32Valid s = true :=
+  stageMB32Valid_of_wf s hw
+
+/-- **Round trip, whole stage declarations, with the REAL reading of `mem_gb` / `vmem_gb`.**  The same
+as `parse_format_stage` for the reader that rounds the literal to the nearest float32 first, as the
+real parser does (`parseStage32`, model `readGB32Tok`): on the domain `wfStage` the two readers
+return the same stage. -/
+theorem parse32_format_stage (s : Stage) (hw : wfStage s = true) : parseStage32 (fmtStage s) = some s :=
+  parseStage32_fmtStage s hw (stageMB32Valid_of_wf s hw)
+
+/-- **Negative witness, the 256 GB bound of `wfStage` (F29).**  The stage `S` with `mem_gb` =
+262188 MB (256 GB + 44 MB, the value of `formatGB_float32_witness`) is NOT `wfStage`, and only
+because of that value (with 262143 MB, the largest value of the domain, it is): the exact reading
+of the printed text is 262188 MB, the real parser's float32 reading is 262187 MB — the model reader
+`parseStage` accepts the printed text as the same stage, the real-reader model `parseStage32` reads
+a different stage, whose printed form differs (the real formatter is not a fixed point there). -/
+theorem stage_above_256GB_not_wf :
+    let big : Stage := ⟨[0x53], [], [], .py, [0x78], [], false, [], [],
+      some ⟨some 262188, none, none, none, none⟩, none⟩
+    let top : Stage := { big with res := some ⟨some 262143, none, none, some (-262143), none⟩ }
+    wfStage big = false ∧ stageMB32Valid big = false ∧ stageMBValid big = true ∧
+    wfStage top = true ∧ parseStage32 (fmtStage top) = some top ∧
+    readGB (fmtGB 262188) = some 262188 ∧ readGB32 (fmtGB 262188) = some 262187 ∧
+    parseStage (fmtStage big) = some big ∧
+    parseStage32 (fmtStage big) = some { big with res := some ⟨some 262187, none, none, none, none⟩ } ∧
+    (parseStage32 (fmtStage big)).map fmtStage ≠ some (fmtStage big) := by
+  set_option maxRecDepth 100000 in decide +kernel
 
 /-- **Lexing layer.**  The printed declaration followed by ANY text lexes as its token sequence
 followed by the tokens of that text (a file is a sequence of declarations). -/
@@ -1212,13 +1265,30 @@ open Martian.Lexer (Bytes)
 stages and pipelines, with or without a top-level call; at least a declaration or the call) the
 reader accepts the printed text and returns the file up to the documented normalisations
 (`normFile`: the calls of every pipeline in `topoSort` order, calls and `return` in normal form;
-everything else exactly). -/
+everything else exactly).
+Domain: mem_gb / vmem_gb below 256 GB in magnitude (`wfMB`): the range where the model's exact reading and the
+real parser's float32 reading agree (`readGB32_inverts_formatGB`); above it the real formatter is not a
+fixed point (F29, `formatGB_float32_witness`).  The same statement for the
+reader with the REAL float32 reading: `parse32_format_file` below. -/
 theorem parse_format_file (f : File) (hw : wfFile f = true) : parseFile (fmtFile f) = some (normFile f) :=
   parseFile_fmtFile f hw
 
-/-- **Idempotent, whole file.**  Printing what was read gives the same text. -/
+/-- **Idempotent, whole file.**  Printing what was read gives the same text.
+Domain: mem_gb / vmem_gb below 256 GB in magnitude (`wfMB`): the range where the model's exact reading and the
+real parser's float32 reading agree (`readGB32_inverts_formatGB`); above it the real formatter is not a
+fixed point (F29, `formatGB_float32_witness`). -/
 theorem format_file_idem (f : File) (hw : wfFile f = true) : fmtFile (normFile f) = fmtFile f :=
   fmtFile_norm f hw
+
+/-- every stage of a well-formed file has `mem_gb` / `vmem_gb` below 256 GB in magnitude -/
+theorem wfFile_below_256GB (f : File) (hw : wfFile f = true) : fileMB32Valid f = true :=
+  fileMB32Valid_of_wf f hw
+
+/-- **Round trip, whole file, with the REAL reading of `mem_gb` / `vmem_gb`** (`parseFile32`: the
+literal rounded to the nearest float32 first, as the real parser does): on the domain `wfFile` it
+returns the same file as the exact reader of `parse_format_file`. -/
+theorem parse32_format_file (f : File) (hw : wfFile f = true) : parseFile32 (fmtFile f) = some (normFile f) :=
+  parseFile32_fmtFile f hw (fileMB32Valid_of_wf f hw)
 
 /-- the normal form is well formed and a fixed point -/
 theorem normFile_stable (f : File) (hw : wfFile f = true) :
@@ -1238,7 +1308,7 @@ consists of include lines, well-formed declarations `ds` of the four kinds in AN
 the printer's spelling, pipelines with their calls in `topoSort` order) and optionally the call,
 with any white space `w k` after piece number `k`, reads as the normal form of the file which
 `NewAst` builds (`distribute`: all filetypes, all structs, all callables, each group in source
-order). -/
+order).  Domain: `mem_gb` / `vmem_gb` of every stage below 256 GB in magnitude (`wfMB`, F29). -/
 theorem parse_source_any_order (w : Nat → Bytes) (hws : ∀ k, (w k).all isSp = true)
     (incs : List Bytes) (ds : List Decl) (call : Option Call2) (hw : wfSource incs ds call = true) :
     parseFile (fmtSource false w incs ds call) = some (normFile (distribute incs ds call)) :=
@@ -1251,7 +1321,10 @@ file with every pipeline's calls where they stand, calls in normal form; (2) the
 output for it, `fmtFile g`, is the printed form of the distributed file; (3) that output reads as
 the normal form of the distributed file — the same includes, filetypes, structs and stages, the
 same pipelines up to the order of their calls (`normPipeline`), the same call; and (4) formatting
-again changes nothing. -/
+again changes nothing.
+Domain (`wfSource`: every declaration well formed): mem_gb / vmem_gb below 256 GB in magnitude (`wfMB`): the range where the model's exact reading and the
+real parser's float32 reading agree (`readGB32_inverts_formatGB`); above it the real formatter is not a
+fixed point (F29, `formatGB_float32_witness`). -/
 theorem format_preserves_program (w : Nat → Bytes) (hws : ∀ k, (w k).all isSp = true)
     (incs : List Bytes) (ds : List Decl) (call : Option Call2) (hw : wfSource incs ds call = true) :
     let g := distribute incs (ds.map readDecl) (call.map normCall2)
@@ -1535,5 +1608,812 @@ theorem accepted_text_negative_zero :
   set_option maxRecDepth 100000 in decide +kernel
 
 end AcceptedTexts
+
+/-! ## declarations below pipelines: ACCEPTED SOURCE TEXTS
+
+The theorems of sections Declarations, StageClauses and StageDeclarations quantify over ASTs
+satisfying `wfFiletype` / `wfStruct` / `wfParam` / `wfStage`.  This section closes the gap to "every
+source text the parser accepts", as section AcceptedTexts does for value expressions: the RANGE
+of the readers on the range of the tokenizer (`range_lex`) — whatever `parseFiletype`,
+`parseStruct`, `parseParams`, `parseStage` return for ANY source text is well-formed, up to exactly
+the recorded exceptions, which are GENUINE exceptions of the real code and appear as Bool
+hypotheses (negative witnesses below; the driver evaluates them on what the real parser returns,
+harness/c09decl.go, c09stage.go, key `C09:accepted-decl-not-wf`):
+
+* F6b — `declStrsValid` / `paramsStrsValid` / `stageStrsValid`: a help text, out name, `special`
+  value or src command written with an escape for an invalid UTF-8 byte (`"\xff"`);
+* F29 — `stageMB32Valid` (= `wfMB` on both values): `mem_gb` / `vmem_gb` of 256 GB or more in
+  magnitude, where the real parser's float32 reading of what `formatGB` prints can differ from the
+  exact reading of the model.  This is the resource bound of `wfStage`, hence a hypothesis of the
+  theorems about BOTH readers.  F25 — `stageMBValid`: 2^53 GB or more (`formatGB`'s
+  `int64(gb*1024)`) — is subsumed (`stageMBValid_of_32`) and kept as a definition only.
+
+Model: `Martian.FormatDeclText`.  `threads`: the model reader keeps the token text, Go stores
+`roundUpTo(float32(text), 100)` and prints it with `%g`; strconv/fmt and `roundUpTo` are trusted:
+`h` stands for `fun t => Sprintf("%g", roundUpTo(float_32(t), 100))` and only `HOK h` is assumed
+(clause `fixed` is the idempotence of `roundUpTo` on its own output, fix 1a6dbe9, which the harness
+checks exhaustively on 0.01 … 64.00, key `C09:threads-hundredths`); `parseStageH h` = the real
+parser's `Stage`.
+
+`mem_gb` / `vmem_gb` (F29, stated, not hidden): `parseStage` reads them by `readGBTok`, the EXACT
+decimal value of the literal rounded up to 1/1024; the real parser rounds the literal to the nearest
+float32 first (`readGB32Tok`; `0.5000000001` is 512 MB for the real parser, 513 MB exactly).  BOTH
+readers are covered, under the SAME hypothesis `stageMB32Valid` (below 256 GB in magnitude, the
+domain where the two readings of a printed value agree — `readGB32_inverts_formatGB`, 262 144 values
+by kernel evaluation — and the domain of `wfStage`): `parseStage` (`…_stage_partial`) and
+`parseStage32` = the same reader with `readGB32Tok` (`…_stage32_partial`; this is the statement
+about the real code).  From 256 GB + 44 MB on the real formatter's output does NOT read back as the
+same value: `accepted_stage_float32_resource`, finding F29.  The harness ties `readGB32` to the real
+parser on every literal and every printed value it samples (streams `C09.readgb` / `C09.readgb32`,
+harness/c09res.go). -/
+section AcceptedDeclTexts
+open Martian.FormatExp Martian.FormatDecl Martian.FormatRes Martian.FormatStage
+open Martian.Lexer (Bytes)
+
+/-- **Range of the `filetype` reader** — no exception: for EVERY source text `parseFiletype`
+accepts, the declaration it returns is well-formed (its components come from `id` tokens, which
+are identifiers by `range_lex`). -/
+theorem parse_produces_wf_filetype (src : Bytes) (t : Filetype) (h : parseFiletype src = some t) :
+    wfFiletype t = true :=
+  parseFiletype_range src t h
+
+/-- **Range of the `struct` reader** — partial: the hypothesis `hs` is finding F6b (a help text or
+out name `"\xff"` is accepted and denotes a string that is not valid UTF-8:
+`accepted_struct_invalid_utf8` below); nothing else the reader returns is outside `wfStruct`: the
+ids are identifiers, there is at least one member, type names are builtin keywords (`map` only
+without argument) or dotted identifiers, array dimensions ≤ 32767 and a map dimension ≤ 32767
+(the reader rejects beyond, like the grammar actions: `arr_list` at 32767, and the inner dimensions
+of a typed map at 32767 since fix e6bd8cc; reader and `wfType` agree at the boundary). -/
+theorem parse_produces_wf_struct_partial (src : Bytes) (s : Struct) (h : parseStruct src = some s)
+    (hs : declStrsValid s = true) : wfStruct s = true :=
+  parseStruct_range src s h hs
+
+/-- **Range of the parameter-block reader** — partial (`hs` = F6b): the block is a list of inputs
+followed by a list of outputs, each parameter well-formed (`in_param_list out_param_list`). -/
+theorem parse_produces_wf_params_partial (src : Bytes) (ps : List Param) (h : parseParams src = some ps)
+    (hs : paramsStrsValid ps = true) :
+    ∃ ins outs, ps = ins ++ outs ∧ ins.all Martian.FormatDecl.wfParam = true ∧
+      outs.all Martian.FormatDecl.wfParam = true ∧
+      ins.all (fun p => !p.out) = true ∧ outs.all (fun p => p.out) = true :=
+  parseParams_range src ps h hs
+
+/-- **Range of the `stage` reader** (NO exception hypothesis).  For EVERY source text the model
+reader accepts, the stage it returns is in `stageRaw`: `wfStage` without the validity of the
+strings and the `int64` bound on `mem_gb` / `vmem_gb`, and with the threads text a NUM_INT or
+NUM_FLOAT token that `float_32` accepts (`threadsTokOK`): ids and retained ids are identifiers,
+parameters are of the mode of their list and shaped as the grammar says, a stage that is not split
+has no chunk parameters, and every field of the src command is free of white space
+(`strings.Fields`, ASCII and Unicode). -/
+theorem parse_produces_stageRaw (src : Bytes) (s : Stage) (h : parseStage src = some s) :
+    stageRaw s = true :=
+  parseStage_range src s h
+
+/-- `HOK` is satisfiable: `hSample` does what Go does on `0.50` (↦ `0.5`), `1e0` (↦ `1`), `007`
+(↦ `7`) and leaves every text in printed form alone -/
+theorem hok_instance : HOK hSample := hok_hSample
+
+/-- **The parser produces well-formed stages** — partial: `hs` is finding F6b, `hm` is F29's range
+(`mem_gb`, `vmem_gb` below 256 GB in magnitude: the resource bound of `wfStage`, the domain where the
+exact reading of this model reader is the reading of the real parser; `accepted_stage_float32_resource`
+below).  F25 is subsumed (`accepted_stage_huge_resource` below: `mem_gb = 9007199254740992` is
+accepted; the real `formatGB` prints `-9007199254740992` for it).  Everything else the parser can return is covered:
+`h` is any canonicaliser with `HOK h` (what is trusted about `roundUpTo`, `float32` and `%g`);
+without `h` the statement is false (`threads = 007` is accepted: `accepted_stage_threads_text`). -/
+theorem parse_produces_wf_stage_partial (h : Bytes → Bytes) (hh : HOK h) (src : Bytes) (s : Stage)
+    (hp : parseStageH h src = some s) (hs : stageStrsValid s = true) (hm : stageMB32Valid s = true) :
+    wfStage s = true :=
+  parseStageH_wf h hh src s hp hs hm
+
+/-- **Formatting preserves every accepted `filetype` text**: for every source text the reader
+accepts (any white space and comments between the tokens, also around the dots) the formatter's
+output is accepted and denotes the same declaration; hence it is a fixed point. -/
+theorem format_preserves_accepted_filetype (src : Bytes) (t : Filetype) (h : parseFiletype src = some t) :
+    parseFiletype (fmtFiletype t) = some t ∧
+    ∀ t', parseFiletype (fmtFiletype t) = some t' → fmtFiletype t' = fmtFiletype t := by
+  have h1 := parseFiletype_fmt_accepted src t h
+  refine ⟨h1, fun t' h2 => ?_⟩
+  rw [h1] at h2; injection h2 with h2; rw [h2]
+
+/-- **Formatting preserves every accepted `struct` text** — partial (`hs` = F6b; without it the
+statement is FALSE for the code as it is: `accepted_struct_invalid_utf8`). -/
+theorem format_preserves_accepted_struct_partial (src : Bytes) (s : Struct) (h : parseStruct src = some s)
+    (hs : declStrsValid s = true) :
+    parseStruct (fmtStruct s) = some s ∧
+    ∀ s', parseStruct (fmtStruct s) = some s' → fmtStruct s' = fmtStruct s := by
+  have h1 := parseStruct_fmt_accepted src s h hs
+  refine ⟨h1, fun s' h2 => ?_⟩
+  rw [h1] at h2; injection h2 with h2; rw [h2]
+
+/-- **Formatting preserves every accepted parameter block** — partial (`hs` = F6b), printed with
+ANY column widths, in particular those `getWidths` computes for the block (`widths ps`): the
+output is accepted, reads as the same parameters and is a fixed point. -/
+theorem format_preserves_accepted_params_partial (src : Bytes) (ps : List Param)
+    (h : parseParams src = some ps) (hs : paramsStrsValid ps = true) (mw tw iw hw : Nat) :
+    parseParams (fmtParams mw tw iw hw ps) = some ps ∧
+    parseParams (fmtParams (widths ps).1 (widths ps).2.1 (widths ps).2.2.1 (widths ps).2.2.2 ps) = some ps ∧
+    ∀ ps', parseParams (fmtParams mw tw iw hw ps) = some ps' →
+      fmtParams mw tw iw hw ps' = fmtParams mw tw iw hw ps := by
+  have h1 := parseParams_fmt_accepted src ps h hs mw tw iw hw
+  refine ⟨h1, parseParams_fmt_accepted src ps h hs _ _ _ _, fun ps' h2 => ?_⟩
+  rw [h1] at h2; injection h2 with h2; rw [h2]
+
+/-- **Formatting preserves every accepted `stage` text** — partial: `hs` = F6b, `hm` = F29's range
+(below 256 GB in magnitude; F25 subsumed); this is
+the reader with the EXACT reading of `mem_gb` / `vmem_gb` (section header; the real reading, under
+the same hypotheses: `format_preserves_accepted_stage32_partial`).  For every
+source text the parser accepts (any spacing, comments between tokens, `split using (`, resource
+entries in any order, repeated, in either spelling, numerals in any spelling): the formatter's
+output is accepted, denotes the same stage, and whatever it is read as prints to the same text. -/
+theorem format_preserves_accepted_stage_partial (h : Bytes → Bytes) (hh : HOK h) (src : Bytes) (s : Stage)
+    (hp : parseStageH h src = some s) (hs : stageStrsValid s = true) (hm : stageMB32Valid s = true) :
+    parseStageH h (fmtStage s) = some s ∧
+    ∀ s', parseStageH h (fmtStage s) = some s' → fmtStage s' = fmtStage s :=
+  parseStageH_fmtStage h hh src s hp hs hm
+
+/-! ### the same with `mem_gb` / `vmem_gb` as the REAL parser reads them (float32) -/
+
+/-- F29's range is inside F25's (256 GB < 2^53 GB) -/
+theorem stageMB32_implies (s : Stage) (hm : stageMB32Valid s = true) : stageMBValid s = true :=
+  stageMBValid_of_32 s hm
+
+/-- **The real reading inverts `formatGB` below 256 GB**: for `|mb| < 256·1024` the text `formatGB`
+prints, rounded to the nearest float32 and then up to 1/1024 (`readGB32` = `tryParseFloat32` +
+`roundUpTo`), is `mb` again, and the exact reader agrees.  (262 144 values: the text is reduced to
+`f32MB (f32Round (I·10^k + D) (10^k))`, evaluated by the kernel in 64 slices.)  Sharp:
+`formatGB_float32_witness` is 256 GB + 44 MB. -/
+theorem readGB32_inverts_formatGB (mb : Int) (hb : mb.natAbs < 262144) :
+    readGB32 (fmtGB mb) = some mb ∧ readGB32 (fmtGB mb) = readGB (fmtGB mb) :=
+  readGB32_fmtGB mb hb
+
+/-- definitional: `parseStage` is the parameterised stage reader with the exact reading of the two
+values; `parseStage32` is the same reader with the real one -/
+theorem parseStage_readers (src : Bytes) :
+    parseStage src = (lexAll src).bind (pStageAllR readGBTok) ∧
+    parseStage32 src = (lexAll src).bind (pStageAllR readGB32Tok) :=
+  ⟨parseStage_eq src, rfl⟩
+
+/-- **Range of the stage reader with the real reading** (no exception hypothesis) -/
+theorem parse32_produces_stageRaw (src : Bytes) (s : Stage) (h : parseStage32 src = some s) :
+    stageRaw s = true :=
+  parseStage32_range src s h
+
+/-- **The real parser produces well-formed stages** — partial: `hs` = F6b; `hm` (`mem_gb`, `vmem_gb`
+below 256 GB in magnitude) is the resource bound of `wfStage` (`wfMB`) and what
+`format_preserves_accepted_stage32_partial` needs (F29); F25 is subsumed (`stageMB32_implies`). -/
+theorem parse_produces_wf_stage32_partial (h : Bytes → Bytes) (hh : HOK h) (src : Bytes) (s : Stage)
+    (hp : parseStage32H h src = some s) (hs : stageStrsValid s = true) (hm : stageMB32Valid s = true) :
+    wfStage s = true :=
+  parseStage32H_wf h hh src s hp hs hm
+
+/-- **Formatting preserves every stage text the REAL parser accepts** — partial: `hs` = F6b, `hm` =
+F29/F25 (`mem_gb`, `vmem_gb` below 256 GB in magnitude; without it the statement is FALSE for the
+code as it is: `accepted_stage_float32_resource`).  The reader is `parseStage32H h`: every
+clause of the grammar's `stage` production, `mem_gb` / `vmem_gb` through the float32 rounding of the
+literal, `threads` through `h`. -/
+theorem format_preserves_accepted_stage32_partial (h : Bytes → Bytes) (hh : HOK h) (src : Bytes) (s : Stage)
+    (hp : parseStage32H h src = some s) (hs : stageStrsValid s = true) (hm : stageMB32Valid s = true) :
+    parseStage32H h (fmtStage s) = some s ∧
+    ∀ s', parseStage32H h (fmtStage s) = some s' → fmtStage s' = fmtStage s :=
+  parseStage32H_fmtStage h hh src s hp hs hm
+
+/-! ### non-vacuity: concrete SOURCE TEXTS in non-canonical spelling -/
+
+/-- white space around the dots, a comment after the semicolon -/
+def sampleFiletypeText : Bytes := ascii "filetype  json . gz ;# c\n"
+
+example : (parseFiletype sampleFiletypeText).map (fun t => (fmtFiletype t, fmtFiletype t != sampleFiletypeText)) =
+    some (ascii "filetype json.gz;\n", true) := by
+  set_option maxRecDepth 100000 in decide +kernel
+
+/-- odd white space, `[ ]`, a help string with escapes (`\x41`, `\n`), an empty help with an out
+name, a comment between members, an id-like keyword as id -/
+def sampleStructText : Bytes :=
+  ascii "struct  S ( int a \"h\\x41\\n\" ,map<json.gz[ ]>[] b  \"\"  \"o\",\n# c\n string[ ] struct , )"
+
+example : (parseStruct sampleStructText).map
+      (fun s => (declStrsValid s, fmtStruct s != sampleStructText, fmtStruct s)) =
+    some (true, true, ascii
+      "struct S(\n    int              a      \"hA\\n\",\n    map<json.gz[]>[] b      \"\"    \"o\",\n    string[]         struct,\n)\n") := by
+  set_option maxRecDepth 100000 in decide +kernel
+
+/-- inputs then outputs on one line, an unnamed output, the `""` placeholder -/
+def sampleParamsText : Bytes := ascii "in int a\"x\", in  map b ,out float , out path p \"\" \"o\","
+
+example : (parseParams sampleParamsText).map (fun ps => (paramsStrsValid ps, widths ps,
+      fmtParams (widths ps).1 (widths ps).2.1 (widths ps).2.2.1 (widths ps).2.2.2 ps)) =
+    some (true, (3, 5, 7, 1), ascii
+      "    in  int   a        \"x\",\n    in  map   b,\n    out float,\n    out path  p        \"\"   \"o\",\n") := by
+  set_option maxRecDepth 100000 in decide +kernel
+
+/-- a stage on two lines: a help text with a `\u` escape, a command with two blanks, a comment,
+`split using (`, the resources in source order `threads, memgb, volatile, threads, vmem_gb,
+special` (repeated key: the last wins; `memgb` is `mem_gb`), the numerals `007`, `1e0`, `0.50`,
+trailing commas before `)` -/
+def sampleStageText : Bytes :=
+  ascii "stage S ( in int a \"\\u0041\" , out float , src py \"x.py  -v\" ,# c\n ) split using ( in int c , ) using ( threads = 007 , memgb = 1e0 , volatile = strict , threads=0.50, vmem_gb = 0.50, special = \"a\\tb\" ,) retain ( a , )"
+
+example : (parseStageH hSample sampleStageText).map
+      (fun s => (stageStrsValid s, stageMB32Valid s, fmtStage s != sampleStageText, fmtStage s)) =
+    some (true, true, true, ascii
+      "stage S(\n    in  int   a        \"A\",\n    out float,\n    src py    \"x.py -v\",\n) split (\n    in  int   c,\n) using (\n    mem_gb   = 1,\n    special  = \"a\\tb\",\n    threads  = 0.5,\n    vmem_gb  = 0.5,\n    volatile = strict,\n) retain (\n    a,\n)\n") := by
+  set_option maxRecDepth 100000 in decide +kernel
+
+/-! ### negative witnesses: each exception hypothesis excludes something the parser produces -/
+
+/-- Negative witness F6b on an ACCEPTED struct text: the help text `"\xff"` is accepted and is
+the single byte FF (`declStrsValid` and `wfStruct` fail); the printer writes `"\ufffd"`, which reads
+back as U+FFFD — another declaration. -/
+theorem accepted_struct_invalid_utf8 :
+    (match parseStruct (ascii "struct S(int a \"\\xff\",)") with
+      | some s => !declStrsValid s && !wfStruct s && (s.members.map (·.help) == [[0xFF]]) &&
+          fmtStruct s == ascii "struct S(\n    int a \"\\ufffd\",\n)\n" &&
+          (parseStruct (fmtStruct s)).map (fun s' => s'.members.map (·.help)) == some [[0xEF, 0xBF, 0xBD]]
+      | none => false) = true := by
+  set_option maxRecDepth 100000 in decide +kernel
+
+/-- Negative witness F25 on an ACCEPTED stage text: `mem_gb = 9007199254740992` (2^53 GB) is
+accepted and stored as 2^63 MB (`stageMBValid`, `stageMB32Valid` and `wfStage` fail); the real `formatGB` (`fmtGBgo`:
+`int64` overflow) prints `-9007199254740992` for it, not what the model printer `fmtGB` prints. -/
+theorem accepted_stage_huge_resource :
+    (match parseStageH hSample (ascii "stage S(src py \"x\",) using (mem_gb = 9007199254740992,)") with
+      | some s => !stageMBValid s && !stageMB32Valid s && !wfStage s && stageStrsValid s &&
+          ((s.res.bind (·.mem)) == some (2 ^ 63 : Int))
+      | none => false) = true ∧
+    fmtGBgo (2 ^ 63) ≠ fmtGB (2 ^ 63) := by
+  set_option maxRecDepth 100000 in decide +kernel
+
+/-- Why `h` is needed: `threads = 007` is accepted; the raw reader keeps `007`, which is neither a
+NUM_FLOAT token nor a canonical integer (`wfStage` fails for the RAW stage); Go holds 7 and prints
+`7` (`hSample`), and the stage as Go holds it is well-formed. -/
+theorem accepted_stage_threads_text :
+    (parseStage (ascii "stage S(src py \"x\",) using (threads = 007,)")).map
+      (fun s => (stageRaw s, wfStage s, s.res.bind (·.threads))) = some (true, false, some (ascii "007")) ∧
+    (parseStageH hSample (ascii "stage S(src py \"x\",) using (threads = 007,)")).map
+      (fun s => (wfStage s, s.res.bind (·.threads))) = some (true, some (ascii "7")) := by
+  set_option maxRecDepth 100000 in decide +kernel
+
+/-- non-vacuity for the real reading: `sampleStageText` is read alike by both readers and
+satisfies `stageMB32Valid`; `mem_gb = 0.5000000001` is 512 MB for the real parser (the float32
+nearest to the literal is 0.5) and 513 MB for the exact reader -/
+example :
+    parseStage32H hSample sampleStageText = parseStageH hSample sampleStageText ∧
+    (parseStage32H hSample sampleStageText).map stageMB32Valid = some true ∧
+    (parseStage32 (ascii "stage S(src py \"x\",) using (mem_gb = 0.5000000001,)")).map (fun s => s.res.bind (·.mem)) =
+      some (some 512) ∧
+    (parseStage (ascii "stage S(src py \"x\",) using (mem_gb = 0.5000000001,)")).map (fun s => s.res.bind (·.mem)) =
+      some (some 513) := by
+  set_option maxRecDepth 100000 in decide +kernel
+
+/-- Negative witness F29 on an ACCEPTED stage text: `mem_gb = 256.04296875` (256 GB + 44 MB, a
+float32) is accepted by the real reader as 262188 MB (`stageMB32Valid` and hence `wfStage` fail —
+the domain of the round-trip theorems ends below 256 GB —, `stageMBValid`, F25's range, holds); the
+formatter prints `256.042`, which the real reader reads as 262187 MB — the output does not denote
+the same stage (the exact reader of the model reads 262188 back: above 256 GB the model reader is
+NOT the real parser, which is why `wfStage` excludes it). -/
+theorem accepted_stage_float32_resource :
+    (match parseStage32 (ascii "stage S(src py \"x\",) using (mem_gb = 256.04296875,)") with
+      | some s => !stageMB32Valid s && stageMBValid s && !wfStage s &&
+          ((s.res.bind (·.mem)) == some (262188 : Int)) &&
+          fmtStage s == ascii "stage S(\n    src py \"x\",\n) using (\n    mem_gb = 256.042,\n)\n" &&
+          ((parseStage32 (fmtStage s)).map (fun s' => s'.res.bind (·.mem)) == some (some (262187 : Int))) &&
+          ((parseStage (fmtStage s)).map (fun s' => s'.res.bind (·.mem)) == some (some (262188 : Int)))
+      | none => false) = true := by
+  set_option maxRecDepth 100000 in decide +kernel
+
+end AcceptedDeclTexts
+
+/-! ## call statements and pipelines: ACCEPTED SOURCE TEXTS
+
+The theorems of sections CallStatements, PipelineStatements and PipelineDeclarations quantify over
+ASTs satisfying `wfCall` / `wfCall2` / `wfBody` / `wfPipeline` (print → read → print).  This section
+closes the gap to "every source text the parser accepts", as section AcceptedTexts does for value
+expressions: the RANGE of the readers `pCall2`, `pReturn`, `pPRetain`, `pBody`, `pInParams`,
+`pOutParams`, `pPipeline` on tokens in the range of the tokenizer (`range_lex`) is `wfCall2Raw` …
+`wfPipelineRaw` (NO exception hypothesis), and from there everything `UncheckedParse` can return
+for a file that is one call / one pipeline is well formed, up to exactly these exceptions, each an
+explicit Bool hypothesis with a negative witness on an accepted text below:
+
+* F6b `call2StrsValid` / `pipeStrsValid`: a string (binding value, help text, out name) that is not
+  valid UTF-8;  F26 `call2NoNegZero` / `pipeNoNegZero`: a float leaf `-0`;
+* F40 `modsDistinct` / `pipeModsDistinct`: the same modifier id twice in one `using` block
+  (`using (local = true, local = false,)` is grammatical; the compiler rejects it later with
+  `DuplicateBinding`).  The model's `sortMods` is a STABLE sort, Go's `sort.Slice` is not: on 13 or
+  more entries with repeated ids the real formatter permutes entries with equal ids (found with the
+  real code; the output is still a fixed point there, pdqsort leaves sorted input alone), so the
+  model describes the real printer only for distinct ids;
+* F34 `pipeCallsDistinct`: two calls with the same id in one pipeline (`pipeline-not-idempotent`).
+
+What the parser does NOT guarantee but `wfCall2` does not demand either (so no hypothesis; witnesses
+below): a keyword modifier together with a binding of the same id (`call local X() using (local =
+false,)`, F41: the compiler rejects the source with `ConflictingModifiers`, the formatter prints the
+binding alone, which compiles), and two `using` blocks (the PARSER keeps the last one only, so the
+AST the formatter sees never held the first).
+
+Model: `Martian.FormatCallText`.  `parseCall2G g` / `parsePipelineG g` = `UncheckedParse` with every
+float leaf as Go holds it (`canonCall2 g` / `canonPipeline g` of the raw result; `g` abstract with
+`GOK g`, see section AcceptedTexts).  Tied on every run by harness/c09call2.go and
+harness/c09pipe.go: every hypothesis and `wfCall2` / `wfPipeline` are evaluated (driver ops
+`call2hyps`, `pipehyps`) on what the REAL parser returned for every accepted text; an accepted text
+that satisfies all hypotheses but not `wf…` is the violation `C09:accepted-call-not-wf`. -/
+section AcceptedCallTexts
+open Martian.FormatExp Martian.FormatCall Martian.FormatCall2 Martian.FormatPipe Martian.FormatCallText
+
+/-- **Range of the call reader** (no exception hypothesis).  On tokens in the range of the
+tokenizer, whatever `pCall2` returns satisfies `wfCall2Raw`: callee name and call id are `id`
+tokens, hence identifiers (`local`/`preflight`/`volatile` before `(` or `as` is the name); every
+binding id is an identifier and every binding value is in the range of the expression reader
+(`wfRaw`); a split binding holds a non-empty array, a non-empty map or a reference (and is only
+read inside a `map call`: `isMap2` is DEFINED as "some binding is split", and `pCall2` rejects a
+`map call` without one); the wildcard value (always last: it ends the list) is `self` or a
+reference; the `using` block holds `local|preflight|volatile = true|false` and `disabled = REF`. -/
+theorem range_call2_reader (ts : List Tok) (c : Call2) (rest : List Tok)
+    (h : pCall2 ts = some (c, rest)) (hts : ∀ tok ∈ ts, tokOK tok = true) :
+    wfCall2Raw c = true ∧ ∀ tok ∈ rest, tokOK tok = true :=
+  ⟨(pCall2_range' ts c rest (List.all_eq_true.mpr hts) h).1,
+    List.all_eq_true.mp (pCall2_range' ts c rest (List.all_eq_true.mpr hts) h).2⟩
+
+/-- **Range of `return (…)`, `retain (…)` and of the statements of a pipeline**: `return` has no
+split binding, `retain` holds references. -/
+theorem range_body_readers (ts : List Tok) (hts : ∀ tok ∈ ts, tokOK tok = true) :
+    (∀ r rest, pReturn ts = some (r, rest) → wfRetRaw r = true) ∧
+    (∀ rs rest, pPRetain ts = some (some rs, rest) → wfPRetainRaw rs = true) ∧
+    (∀ b rest, pBody ts = some (b, rest) → wfBodyRaw b = true) :=
+  ⟨fun r rest h => (pReturn_range ts r rest (List.all_eq_true.mpr hts) h).1,
+   fun rs rest h => (pPRetain_range ts (some rs) rest (List.all_eq_true.mpr hts) h).1 rs rfl,
+   fun b rest h => (pBody_range ts b rest (List.all_eq_true.mpr hts) h).1⟩
+
+/-- **Range of the parameter-list readers** as `pipeline` uses them: every parameter satisfies
+`pipeParamRaw` (= `wfParam` without the validity of help text and out name: the type is a builtin
+keyword or a dotted list of identifiers with dimensions in `int16`, the id is an identifier — or
+`default` for an unnamed output —, an input has no out name), inputs are inputs, outputs outputs. -/
+theorem range_param_readers (f : Nat) (ts : List Tok) (ps : List Martian.FormatDecl.Param) (rest : List Tok)
+    (hts : ∀ tok ∈ ts, tokOK tok = true) :
+    (Martian.FormatDecl.pInParams f ts = some (ps, rest) →
+      ps.all pipeParamRaw = true ∧ ps.all (fun q => !q.out) = true) ∧
+    (Martian.FormatDecl.pOutParams f ts = some (ps, rest) →
+      ps.all pipeParamRaw = true ∧ ps.all (fun q => q.out) = true) :=
+  ⟨fun h => ⟨(pInParams_range f ts ps rest (List.all_eq_true.mpr hts) h).1,
+      (pInParams_range f ts ps rest (List.all_eq_true.mpr hts) h).2.1⟩,
+   fun h => ⟨(pOutParams_range f ts ps rest (List.all_eq_true.mpr hts) h).1,
+      (pOutParams_range f ts ps rest (List.all_eq_true.mpr hts) h).2.1⟩⟩
+
+/-- with valid help texts and out names, `pipeParamRaw` is `wfParam` -/
+theorem params_wf_of_raw (ps : List Martian.FormatDecl.Param) (hr : ps.all pipeParamRaw = true)
+    (hs : paramsStrsValid ps = true) : ps.all Martian.FormatDecl.wfParam = true :=
+  all_wfParam_of_raw ps hr hs
+
+/-- **Range of the pipeline reader** (no exception hypothesis) -/
+theorem range_pipeline_reader (ts : List Tok) (p : Pipeline) (rest : List Tok)
+    (h : pPipeline ts = some (p, rest)) (hts : ∀ tok ∈ ts, tokOK tok = true) : wfPipelineRaw p = true :=
+  pPipeline_range ts p rest hts h
+
+/-- **Every accepted source text** (any spelling): what the raw readers return is in the range -/
+theorem parse_produces_raw_call_pipeline (src : List UInt8) :
+    (∀ c, parseCall src = some c → wfCallRaw c = true) ∧
+    (∀ c, parseCall2 src = some c → wfCall2Raw c = true) ∧
+    (∀ b, parseBody src = some b → wfBodyRaw b = true) ∧
+    (∀ p, parsePipeline src = some p → wfPipelineRaw p = true) :=
+  ⟨parseCall_range src, parseCall2_range src, parseBody_range src, parsePipeline_range src⟩
+
+/-- **The parser produces well-formed call statements** — partial: hypotheses `hs` (F6b), `hz` (F26),
+`hd` (F40: a modifier id bound twice in the `using` block); without any of them the statement is
+false (`accepted_call_invalid_utf8_negative_zero`, `accepted_call_duplicate_modifier`). -/
+theorem parse_produces_wf_call2_partial (g : List UInt8 → List UInt8) (hg : GOK g) (src : List UInt8)
+    (c : Call2) (h : parseCall2G g src = some c) (hs : call2StrsValid c = true)
+    (hz : call2NoNegZero c = true) (hd : modsDistinct c = true) : wfCall2 c = true :=
+  parseCall2G_wf g hg src c h hs hz hd
+
+/-- **Formatting preserves every accepted call statement** — partial in the same sense (F6b, F26,
+F40).  For every source text of a call statement the parser accepts — keyword modifiers
+(`call local volatile X(…)`), a `using` block in any order, both, `as`, `map call` with split
+bindings, a wildcard binding, comments, any white space, any spelling of the values — the
+formatter's output is accepted; it denotes the same call up to `normCall2` (keyword modifiers
+become `= true` bindings, the `using` block is sorted by id, integral floats become ints); it is a
+fixed point of the formatter; and formatting what was re-read is accepted again, same result. -/
+theorem format_preserves_accepted_call2_partial (g : List UInt8 → List UInt8) (hg : GOK g)
+    (src : List UInt8) (c : Call2) (h : parseCall2G g src = some c) (hs : call2StrsValid c = true)
+    (hz : call2NoNegZero c = true) (hd : modsDistinct c = true) :
+    parseCall2G g (fmtCall2 [] c) = some (normCall2 c) ∧ fmtCall2 [] (normCall2 c) = fmtCall2 [] c ∧
+      parseCall2G g (fmtCall2 [] (normCall2 c)) = some (normCall2 c) :=
+  format_accepted_call2 g hg src c h hs hz hd
+
+/-- the same for the modifier-less slice `parseCall` / `fmtCall` of section CallStatements (F6b, F26) -/
+theorem format_preserves_accepted_call_partial (g : List UInt8 → List UInt8) (hg : GOK g)
+    (src : List UInt8) (c : Call) (h : parseCallG g src = some c) (hs : callStrsValid c = true)
+    (hz : callNoNegZero c = true) :
+    wfCall c = true ∧ parseCallG g (fmtCall c) = some (normCall c) ∧ fmtCall (normCall c) = fmtCall c ∧
+      parseCallG g (fmtCall (normCall c)) = some (normCall c) :=
+  ⟨parseCallG_wf g hg src c h hs hz, format_accepted_call g hg src c h hs hz⟩
+
+/-- **The parser produces well-formed pipelines** — partial: F6b, F26, F40 and F34 (`hc`: two calls
+with the same id; `accepted_pipeline_duplicate_call_ids`). -/
+theorem parse_produces_wf_pipeline_partial (g : List UInt8 → List UInt8) (hg : GOK g) (src : List UInt8)
+    (p : Pipeline) (h : parsePipelineG g src = some p) (hs : pipeStrsValid p = true)
+    (hz : pipeNoNegZero p = true) (hd : pipeModsDistinct p = true) (hc : pipeCallsDistinct p = true) :
+    wfPipeline p = true :=
+  parsePipelineG_wf g hg src p h hs hz hd hc
+
+/-- **Formatting preserves every accepted pipeline** — partial (F6b, F26, F40, F34).  For every
+source text of a pipeline declaration the parser accepts, with its calls in ANY order and every
+token in any spelling: the formatter's output is accepted; it denotes the same pipeline up to the
+documented reordering of the calls (`sortBody`: `topoSort` order) and the normal form of each call
+(`normPipeline`); the output is a fixed point of the formatter; and formatting what was re-read is
+accepted again with the same result. -/
+theorem format_preserves_accepted_pipeline_partial (g : List UInt8 → List UInt8) (hg : GOK g)
+    (src : List UInt8) (p : Pipeline) (h : parsePipelineG g src = some p) (hs : pipeStrsValid p = true)
+    (hz : pipeNoNegZero p = true) (hd : pipeModsDistinct p = true) (hc : pipeCallsDistinct p = true) :
+    parsePipelineG g (fmtPipeline p) = some (normPipeline p) ∧
+      fmtPipeline (normPipeline p) = fmtPipeline p ∧
+      parsePipelineG g (fmtPipeline (normPipeline p)) = some (normPipeline p) :=
+  format_accepted_pipeline g hg src p h hs hz hd hc
+
+/-- a call statement in non-canonical spelling: double spaces, a comment, keyword modifiers `local`
+and `volatile`, `as`, a split binding of an array with `1e3` (Go holds 1000) and `007`, a map with
+unsorted and duplicate keys (`"k"` twice: the later wins), a wildcard binding, an unsorted `using`
+block without the closing newline -/
+def sampleCallText : List UInt8 :=
+  ascii "map  call local volatile X as Y (  # c\n  b = split [1e3, 007 ,],  a={ \"k\":2.5, \"a\":[], \"k\": 1 },\n  * = self ,\n) using ( preflight = false , disabled = D.x, )"
+
+/-- a modifier-less call: struct literal with unsorted and duplicate fields, an escape, a comment -/
+def samplePlainCallText : List UInt8 :=
+  ascii "call X(y = {b: 1e3, a: [ ], b: 2,}, # c\n x=\"\\x41\",)"
+
+/-- a pipeline whose three calls are all out of dependency order (`C` needs `B` and `A`, `B` needs
+`A`), on few lines, with a comment, a keyword-modified call, `1e3`, `007`, duplicate map keys, an
+unnamed output and a typed-map parameter -/
+def samplePipelineText : List UInt8 :=
+  ascii "pipeline P(in int a \"h\", out map<int[]>[] r,out bam,){ # c\n  map call C(x = split B.o, * = self,) using (disabled = A.d,)\n call local volatile B(y = [A.o, 1e3],) call A(z = {\"b\":self.a, \"a\":007, \"b\":null},)\n return (r = C.o,) retain (C.o,) }"
+
+/-- non-vacuity: the sample texts are accepted, satisfy every hypothesis (and are free of the
+modifier conflict F41), and the formatted text differs from the source: for the call the `using`
+block of the normal form is `disabled, local, preflight, volatile` (keywords converted, sorted),
+for the modifier-less call the whole canonical text is shown.  (The canonical texts of
+`sampleCallText` and `samplePipelineText` are compared with the real formatter's output on every
+run: harness/c09calltext.go; evaluating the printers on them in the kernel takes half a minute.) -/
+example :
+    (parseCall2G gSample sampleCallText).map
+        (fun c => call2StrsValid c && call2NoNegZero c && modsDistinct c && !modsConflict c.mods &&
+          (normCall2 c).mods.binds.map (·.1) == [sDisabled, sLocal, sPreflight, sVolatile] &&
+          !(fmtCall2 [] c == sampleCallText)) = some true ∧
+    (parseCallG gSample samplePlainCallText).map (fun c => callStrsValid c && callNoNegZero c &&
+        fmtCall c == ascii "call X(\n    y = {\n        a: [],\n        b: 2,\n    },\n    x = \"A\",\n)\n") =
+      some true := by
+  set_option maxRecDepth 1000000 in decide +kernel
+
+/-- non-vacuity, pipeline: accepted, every hypothesis holds, the calls are read in source order
+`C, B, A` and come out in dependency order `A, B, C`; the formatted text differs from the source -/
+example :
+    (parsePipelineG gSample samplePipelineText).map
+        (fun p => pipeStrsValid p && pipeNoNegZero p && pipeModsDistinct p && pipeCallsDistinct p &&
+          p.body.calls.map (·.id) == [[0x43], [0x42], [0x41]] &&
+          (normPipeline p).body.calls.map (·.id) == [[0x41], [0x42], [0x43]] &&
+          !(fmtPipeline p == samplePipelineText)) = some true := by
+  set_option maxRecDepth 1000000 in decide +kernel
+
+/-- Negative witness F40 on an ACCEPTED TEXT: `call X() using (local = true, local = false,)` is
+accepted; the `using` block holds the id `local` twice (`modsDistinct` fails), which is outside
+`wfCall2`.  (The MODEL still prints both entries in source order — a stable sort; the real
+`sort.Slice` is not stable from 13 entries on, so the model does not speak for the real printer
+here: harness histogram `accepted-call2 dup-mods`.) -/
+theorem accepted_call_duplicate_modifier :
+    (parseCall2G gSample (ascii "call X() using (local = true, local = false,)")).map
+      (fun c => (call2StrsValid c, call2NoNegZero c, modsDistinct c, wfCall2 c, wfCall2Raw c)) =
+      some (true, true, false, false, true) := by
+  set_option maxRecDepth 100000 in decide +kernel
+
+/-- Negative witness F34 on an ACCEPTED TEXT: two calls with the id `X` (`call X`, `call Y as X`).
+The text is accepted, every other hypothesis holds; the formatter moves `X` behind `C` (the LAST
+call with id `X` wins in `callMap`), and formatting the output moves `C` again (the calls of
+`normPipeline (normPipeline p)`, which `fmtPipeline` prints in that order, are not those of
+`normPipeline p`): the output is not a fixed point. -/
+theorem accepted_pipeline_duplicate_call_ids :
+    (parsePipelineG gSample (ascii
+      "pipeline P(in int a, out int r,) { call X(a = B.o,) call Y as X() call C(c = X.o,) call B() return (r = C.o,) }")).map
+      (fun p => pipeStrsValid p && pipeNoNegZero p && pipeModsDistinct p && !pipeCallsDistinct p &&
+        p.body.calls.map (·.decId) == [[0x58], [0x59], [0x43], [0x42]] &&
+        (normPipeline p).body.calls.map (·.decId) == [[0x59], [0x43], [0x42], [0x58]] &&
+        (normPipeline (normPipeline p)).body.calls.map (·.decId) == [[0x59], [0x42], [0x58], [0x43]]) =
+      some true := by
+  set_option maxRecDepth 1000000 in decide +kernel
+
+/-- Witness F41 on an ACCEPTED TEXT, inside the theorem (no hypothesis excludes it):
+`call local X() using (local = false,)` — a keyword modifier together with a binding of the same
+id, which `Modifiers.compile` rejects (`ConflictingModifiers`).  The formatter prints the binding
+alone: `call X() using (local = false,)`, free of the conflict: formatting turns a source the
+compiler rejects into one it accepts (the value the compiler would have used, the binding's, is
+kept).  Two `using` blocks: the PARSER keeps the last one, so `disabled = A.x` never reaches the
+formatter. -/
+theorem accepted_call_conflicting_modifiers :
+    (parseCall2G gSample (ascii "call local X() using (local = false,)")).map
+      (fun c => (modsConflict c.mods, modsConflict (normCall2 c).mods, modsDistinct c, wfCall2 c, fmtCall2 [] c)) =
+      some (true, false, true, true, ascii "call X() using (\n    local = false,\n)\n") ∧
+    (parseCall2G gSample (ascii "call X() using (disabled = A.x,) using (volatile = true,)")).map
+      (fun c => fmtCall2 [] c) = some (ascii "call X() using (\n    volatile = true,\n)\n") := by
+  set_option maxRecDepth 100000 in decide +kernel
+
+/-- the formatter never produces a modifier conflict: the normal form has no keyword modifiers -/
+theorem normCall2_no_conflict (c : Call2) : modsConflict (normCall2 c).mods = false := rfl
+
+/-- **The normal form keeps the compiled modifiers.**  What `Modifiers.compile` computes from the
+modifiers of a call — the flags `Local`, `Preflight`, `Volatile` (`modFlags`: the value of the
+binding when the `using` block binds the id, else the keyword) and the `disabled` binding
+(`modDisabled`) — is the same for the call read back from the formatted text as for the source's,
+for every `using` block with distinct ids (conflict F41 included: there the binding's value wins
+in both). -/
+theorem normCall2_keeps_modifiers (c : Call2) (hd : modsDistinct c = true) :
+    modFlags (normCall2 c).mods = modFlags c.mods ∧ modDisabled (normCall2 c).mods = modDisabled c.mods :=
+  normMods_keeps c.mods hd
+
+/-- non-vacuity: `sampleCallText` (`local`, `volatile` as keywords, `preflight = false` and
+`disabled = D.x` bound) and the conflict text (`local` keyword, `local = false` bound) -/
+example :
+    (parseCall2G gSample sampleCallText).map
+      (fun c => (modsDistinct c, modFlags c.mods, modFlags (normCall2 c).mods, (modDisabled c.mods).isSome,
+        (modDisabled (normCall2 c).mods).isSome)) =
+      some (true, (true, false, true), (true, false, true), true, true) ∧
+    (parseCall2G gSample (ascii "call local X() using (local = false,)")).map
+      (fun c => (modsDistinct c, modFlags c.mods, modFlags (normCall2 c).mods)) =
+      some (true, (false, false, false), (false, false, false)) := by
+  set_option maxRecDepth 100000 in decide +kernel
+
+/-- Negative witnesses F6b and F26 inside a call statement: `call X(a = "\xff",)` is accepted, the
+string is not valid UTF-8 and is printed as `"\ufffd"`; `call X(a = -0.0,)` is accepted, printed
+`a = -0`, which reads back as the integer 0 and prints `a = 0`: not a fixed point. -/
+theorem accepted_call_invalid_utf8_negative_zero :
+    (parseCall2G gSample (ascii "call X(a = \"\\xff\",)")).map (fun c => (call2StrsValid c, fmtCall2 [] c)) =
+      some (false, ascii "call X(\n    a = \"\\ufffd\",\n)\n") ∧
+    (parseCall2G gSample (ascii "call X(a = -0.0,)")).map
+      (fun c => (call2NoNegZero c, fmtCall2 [] c, (parseCall2G gSample (fmtCall2 [] c)).map (fmtCall2 []))) =
+      some (false, ascii "call X(\n    a = -0,\n)\n", some (ascii "call X(\n    a = 0,\n)\n")) := by
+  set_option maxRecDepth 100000 in decide +kernel
+
+end AcceptedCallTexts
+
+/-! ## a whole comment-free file: ACCEPTED SOURCE TEXTS  (the capstone of the text-side statements)
+
+The theorems of section WholeFile quantify over files satisfying `wfFile` (print → read → print) and
+over sources in the canonical spelling of the tokens.  This section closes the gap to
+
+  **for every source text the parser accepts, the formatter's output is accepted by the parser,
+  denotes the same program (up to the documented reordering of calls and the normal form of call
+  modifiers), and is a fixed point of the formatter**
+
+by assembling the parts: the range of the tokenizer (`range_lex`, section AcceptedTexts), of the
+expression reader (AcceptedTexts), of the readers of `filetype`, `struct`, parameter lists and
+`stage` (AcceptedDeclTexts), of `call`, `return`, `retain` and `pipeline` (AcceptedCallTexts), and
+here of `includes`, `dec_list` and `file` (`range_file_reader`: NO exception hypothesis).  The
+source may have its declarations in any order (a pipeline before the filetype it uses, a struct
+after a stage), the calls of every pipeline in any order, every token in any spelling the
+tokenizer accepts (`split using (`, keyword modifiers, `memgb`, `1e3`, `007`, duplicate map keys,
+escapes), any white space, and COMMENTS — which the model reader DROPS: the statement is about the
+program; what the real formatter does with comments (it keeps and moves them) is outside the
+model and covered by monitors only (harness/c09dangle.go, c09file.go; findings F27, F28).
+
+The FULL statement is FALSE for the code as it is — not merely unproved: each of the following is
+a recorded finding (known_findings.d/C09.json), a GENUINE exception of the real code with a
+negative witness on a small accepted FILE text below, and appears as a conjunct of the Bool
+hypothesis `fileHyps f` (model `Martian.FormatFileText`; every conjunct ranges over ALL parts of
+the file):
+
+* F6b `fileStrsValid`: a string that is not valid UTF-8 (`"\xff"`) — an `@include` path, a help
+  text or out name of a struct member or of a parameter of a stage or pipeline, the `special` value
+  or src command of a stage, a string in a binding value.  `quoteString` prints U+FFFD for the
+  byte (`accepted_file_invalid_utf8_include`).
+* F26 `fileNoNegZero`: a float leaf `-0.0` in a binding value: printed `-0`, read back as the
+  integer 0, printed `0` (`accepted_file_negative_zero_duplicate_modifier`).
+* F29 `fileMB32Valid`: `mem_gb` / `vmem_gb` of a stage of 256 GB or more in magnitude (`wfMB`): the
+  real parser rounds the literal to the nearest float32 first and can read what `formatGB` printed
+  one MB lower (`accepted_file_float32_resource`); below 256 GB the exact reading of the model and
+  the real reading agree (`readGB32_inverts_formatGB`).  This is the resource bound of `wfFile`.
+  It subsumes F25 `fileMBValid`: 2^53 GB or more, `formatGB`'s `int64(gb*1024)` overflows
+  (`accepted_file_huge_resource`).
+* F40 `fileModsDistinct`: the same modifier id twice in one `using` block of a call (the model's
+  stable sort is `sort.Slice` only for distinct ids).
+* F34 `fileCallsDistinct`: two calls with the same id in one pipeline: the output is not a fixed
+  point (`accepted_file_duplicate_call_ids`).
+
+Which reader of `mem_gb` / `vmem_gb`: `parseFile` (section WholeFile) reads the two values EXACTLY
+(`readGBTok`); the real parser rounds the literal to the nearest float32 first (F29).  BOTH are
+covered, under the SAME hypotheses (`fileHyps32 f = fileHyps f`: the domain is where the two
+readings of a printed value agree): `parseFileGH g h` (exact; `…_file_partial`) and
+`parseFile32GH g h` = the same reader with `pStageR readGB32Tok` for every stage
+(`…_file32_partial`; this is the statement about the real code).  From 256 GB + 44 MB on the
+statement is FALSE for the real reading: `accepted_file_float32_resource`.
+
+Trusted (abstract, as in the parts): strconv's float64 print∘parse `g` with `GOK g`, and
+`h = Sprintf("%g", roundUpTo(float32(·), 100))` for `threads` with `HOK h`; `canonFile g h` applies
+them to every float leaf / every `threads` value, `parseFileGH g h` = `UncheckedParse` as Go holds
+the result.  Tied on every run by harness/c09file.go: `fileHyps…` and `wfFile` are evaluated (driver
+op `filehyps`) on what the REAL parser returned for every accepted generated, respelled and
+near-miss file text; all hypotheses true but `wfFile` false (or the reverse) is the violation
+`C09:accepted-file-not-wf`; the sample text below goes through the real parser and formatter. -/
+section AcceptedFileTexts
+open Martian.FormatExp Martian.FormatDecl Martian.FormatCall2 Martian.FormatStage Martian.FormatPipe
+open Martian.FormatFile Martian.FormatCallText
+open Martian.Lexer (Bytes)
+
+/-- **Range of the file reader** (no exception hypothesis).  On tokens in the range of the
+tokenizer, whatever `pFile` returns satisfies `fileRaw`: every filetype is well formed; every
+struct has an identifier as id and at least one member, each with a well-formed type and an
+identifier as id (`structRaw`); every stage is in `stageRaw` and every pipeline in `wfPipelineRaw`
+(the ranges of sections AcceptedDeclTexts, AcceptedCallTexts); the call, if any, is in `wfCall2Raw`;
+and there is at least one declaration or the call.  Nothing is claimed about the include paths:
+they are whatever `unquote` returned. -/
+theorem range_file_reader (ts : List Tok) (f : File) (h : pFile ts = some f)
+    (hts : ∀ tok ∈ ts, tokOK tok = true) : fileRaw f = true := by
+  rw [← pFileR_exact] at h
+  exact pFileR_range _ ts f (List.all_eq_true.mpr hts) h
+
+/-- the same for the reader with ANY reader `rd` of `mem_gb` / `vmem_gb`, in particular the real one -/
+theorem range_file_reader_any (rd : Tok → Option Int) (ts : List Tok) (f : File) (h : pFileR rd ts = some f)
+    (hts : ∀ tok ∈ ts, tokOK tok = true) : fileRaw f = true :=
+  pFileR_range rd ts f (List.all_eq_true.mpr hts) h
+
+/-- **Every accepted source text** (any order of the declarations, any spelling, comments): what
+the reader returns is in the range — NO exception hypothesis. -/
+theorem parse_produces_fileRaw (src : Bytes) (f : File) (h : parseFile src = some f) : fileRaw f = true :=
+  parseFile_range src f h
+
+/-- definitional: `parseFile` is the parameterised file reader with the exact reading of `mem_gb` /
+`vmem_gb`; `parseFile32` is the same reader with the real one -/
+theorem parseFile_readers (src : Bytes) :
+    parseFile src = parseFileR Martian.FormatRes.readGBTok src ∧
+    parseFile32 src = parseFileR Martian.FormatRes.readGB32Tok src :=
+  ⟨parseFile_eq src, rfl⟩
+
+/-- … and so is what the reader with the real (float32) reading of `mem_gb` / `vmem_gb` returns -/
+theorem parse32_produces_fileRaw (src : Bytes) (f : File) (h : parseFile32 src = some f) : fileRaw f = true :=
+  parseFile32_range src f h
+
+/-- **The parser produces well-formed files** — partial.  The FULL statement is "for every source
+text `UncheckedParse` accepts, the file it returns satisfies `wfFile`" (then `parse_format_file`,
+`format_file_idem` apply to every accepted text).  It is FALSE for the code as it is; `hy` is the
+conjunction of exactly the recorded findings F6b, F26, F29 (which subsumes F25), F40, F34 over all parts of the file
+(section header; negative witnesses below).  Everything else the parser can return is covered;
+`g`, `h`: what is trusted about strconv / `roundUpTo` (`GOK`, `HOK`). -/
+theorem parse_produces_wf_file_partial (g h : Bytes → Bytes) (hg : GOK g) (hh : HOK h) (src : Bytes) (f : File)
+    (hp : parseFileGH g h src = some f) (hy : fileHyps f = true) : wfFile f = true :=
+  parseFileGH_wf g h hg hh src f hp hy
+
+/-- **Formatting preserves every accepted file** — partial in the same sense (`hy` = F6b, F26, F29
+(below 256 GB; F25 subsumed), F40, F34; without any conjunct the statement is FALSE for the code as it is).  For EVERY source
+text of a whole file the parser accepts — `@include` lines, the declarations of the four kinds in
+any order, the calls of every pipeline in any order, the top-level call, every token in any
+spelling, any white space, comments (dropped by the model reader: the statement is about the
+program; comments are covered by monitors only) —: the formatter's output is accepted; it denotes
+the same file up to `normFile` (the calls of every pipeline in `topoSort` order, call modifiers as
+sorted `using` bindings, integral floats as ints — nothing else changes; the regrouping of the
+declarations into includes, filetypes, structs, callables, call is not visible in the AST); the
+output is a fixed point of the formatter; and formatting what was re-read is accepted again with
+the same result.  `mem_gb` / `vmem_gb` are read exactly here (on the domain of `hy` that is the
+real reading of every printed value); the real reading of the source too:
+`format_preserves_accepted_file32_partial`. -/
+theorem format_preserves_accepted_file_partial (g h : Bytes → Bytes) (hg : GOK g) (hh : HOK h)
+    (src : Bytes) (f : File) (hp : parseFileGH g h src = some f) (hy : fileHyps f = true) :
+    parseFileGH g h (fmtFile f) = some (normFile f) ∧ fmtFile (normFile f) = fmtFile f ∧
+      parseFileGH g h (fmtFile (normFile f)) = some (normFile f) :=
+  format_accepted_file g h hg hh src f hp hy
+
+/-- `fileHyps32` is `fileHyps` (both carry F29's bound, 256 GB, since the domain of `wfFile` ends there) -/
+theorem fileHyps32_implies (f : File) (hy : fileHyps32 f = true) : fileHyps f = true := fileHyps_of_32 f hy
+
+theorem fileHyps32_is_fileHyps (f : File) : fileHyps32 f = fileHyps f := fileHyps32_eq f
+
+/-- the hypotheses put every `mem_gb` / `vmem_gb` in F25's range too (256 GB < 2^53 GB) -/
+theorem fileHyps_implies_F25 (f : File) (hy : fileHyps f = true) : fileMBValid f = true :=
+  fileMBValid_of_hyps f hy
+
+/-- **The REAL parser produces well-formed files** — partial (`hy` = F6b, F26, F29 ⊇ F25, F40, F34):
+`parseFile32GH g h` reads `mem_gb` / `vmem_gb` of every stage through the float32 rounding of the
+literal, as `UncheckedParse` does. -/
+theorem parse_produces_wf_file32_partial (g h : Bytes → Bytes) (hg : GOK g) (hh : HOK h) (src : Bytes)
+    (f : File) (hp : parseFile32GH g h src = some f) (hy : fileHyps32 f = true) : wfFile f = true :=
+  parseFile32GH_wf g h hg hh src f hp hy
+
+/-- **Formatting preserves every file text the REAL parser accepts** — partial: `hy` = F6b, F26, F29
+(`mem_gb`, `vmem_gb` of every stage below 256 GB in magnitude; without it the statement is FALSE
+for the code as it is: `accepted_file_float32_resource`), F40, F34. -/
+theorem format_preserves_accepted_file32_partial (g h : Bytes → Bytes) (hg : GOK g) (hh : HOK h)
+    (src : Bytes) (f : File) (hp : parseFile32GH g h src = some f) (hy : fileHyps32 f = true) :
+    parseFile32GH g h (fmtFile f) = some (normFile f) ∧ fmtFile (normFile f) = fmtFile f ∧
+      parseFile32GH g h (fmtFile (normFile f)) = some (normFile f) :=
+  format_accepted_file32 g h hg hh src f hp hy
+
+/-! ### non-vacuity: a concrete SOURCE TEXT of a whole file in non-canonical spelling -/
+
+/-- `Martian.FormatFile.sampleFileText` (an include; a pipeline before the filetype it uses, its
+calls `C, B, A` out of dependency order, keyword modifiers, `1e3`, `007`, duplicate map keys; a
+stage with `split using (`, the resources in source order with `memgb`, a repeated key, `1e0`,
+`0.50`; a struct after the stage; the call; comments, tabs, blank lines) is accepted; the file Go
+holds satisfies every hypothesis (`fileHyps`, `fileHyps32`) and `wfFile`; the callables are read in
+source order with the calls of `P` as written and come out in dependency order; and the formatted
+text is `sampleFileCanon`, which differs from the source. -/
+example :
+    (parseFileGH gSample hSample sampleFileText).map (fun f =>
+      fileHyps f && fileHyps32 f && wfFile f && f.includes == [ascii "a.mro"] &&
+      f.callables.map callableCalls == [(ascii "P", [ascii "C", ascii "B", ascii "A"]), (ascii "S", [])] &&
+      (normFile f).callables.map callableCalls ==
+        [(ascii "P", [ascii "A", ascii "B", ascii "C"]), (ascii "S", [])] &&
+      fmtFile f == sampleFileCanon && !(sampleFileCanon == sampleFileText)) = some true := by
+  set_option maxRecDepth 1000000 in decide +kernel
+
+/-- non-vacuity for the real reading: `sampleFileText` is accepted by the reader with the float32
+reading with the same resources (`mem_gb = 1e0` is 1024 MB) and satisfies `fileHyps32`;
+`mem_gb = 0.5000000001` is 512 MB for the real parser and 513 MB for the exact reader -/
+example :
+    (parseFile32GH gSample hSample sampleFileText).map (fun f => fileHyps32 f && wfFile f && fileMems f == [some 1024]) =
+      some true ∧
+    (parseFile32 (ascii "filetype a;\nstage S(src py \"x\",) using (mem_gb = 0.5000000001,)")).map fileMems =
+      some [some 512] ∧
+    (parseFile (ascii "filetype a;\nstage S(src py \"x\",) using (mem_gb = 0.5000000001,)")).map fileMems =
+      some [some 513] := by
+  set_option maxRecDepth 1000000 in decide +kernel
+
+/-! ### negative witnesses on ACCEPTED FILE TEXTS: each conjunct of `fileHyps` excludes something the parser produces -/
+
+/-- Negative witness F6b in an INCLUDE PATH: `@include "\xff"` is accepted, the path is the single
+byte FF (`fileStrsValid` fails, every other conjunct holds, `wfFile` fails); the formatter writes
+`@include "\ufffd"`, which reads back as the path U+FFFD — another file. -/
+theorem accepted_file_invalid_utf8_include :
+    (parseFileGH gSample hSample (ascii "@include \"\\xff\"\nfiletype a;")).map (fun f =>
+      !fileStrsValid f && fileNoNegZero f && fileMB32Valid f && fileModsDistinct f && fileCallsDistinct f &&
+        !wfFile f && f.includes == [[0xFF]] && fmtFile f == ascii "@include \"\\ufffd\"\n\nfiletype a;\n" &&
+        ((parseFileGH gSample hSample (fmtFile f)).map (·.includes) == some [[0xEF, 0xBF, 0xBD]])) = some true := by
+  set_option maxRecDepth 100000 in decide +kernel
+
+/-- Negative witness F34 in a FILE: a pipeline with two calls of id `X` after a filetype.  The text
+is accepted, only `fileCallsDistinct` fails; the formatter moves `X` behind `C`, and formatting
+the output moves `C` again: the output is not a fixed point. -/
+theorem accepted_file_duplicate_call_ids :
+    (parseFileGH gSample hSample (ascii
+      "filetype a;\npipeline P(in int a, out int r,) { call X(a = B.o,) call Y as X() call C(c = X.o,) call B() return (r = C.o,) }")).map
+      (fun f => fileStrsValid f && fileNoNegZero f && fileMB32Valid f && fileModsDistinct f &&
+        !fileCallsDistinct f && !wfFile f &&
+        f.callables.map callableCalls == [([0x50], [[0x58], [0x59], [0x43], [0x42]])] &&
+        (normFile f).callables.map callableCalls == [([0x50], [[0x59], [0x43], [0x42], [0x58]])] &&
+        (normFile (normFile f)).callables.map callableCalls == [([0x50], [[0x59], [0x42], [0x58], [0x43]])]) =
+      some true := by
+  set_option maxRecDepth 1000000 in decide +kernel
+
+/-- Negative witness F25 in a FILE: `mem_gb = 9007199254740992` (2^53 GB) in a stage followed by a
+call.  Accepted, only `fileMBValid` / `fileMB32Valid` fail (and `wfFile`); the real `formatGB` (`fmtGBgo`: `int64`
+overflow) prints `-9007199254740992` for it, not what the model printer prints. -/
+theorem accepted_file_huge_resource :
+    (parseFileGH gSample hSample (ascii "stage S(src py \"x\",) using (mem_gb = 9007199254740992,)\ncall S()")).map
+      (fun f => fileStrsValid f && fileNoNegZero f && !fileMBValid f && !fileMB32Valid f && fileModsDistinct f &&
+        fileCallsDistinct f && !wfFile f && fileMems f == [some (2 ^ 63 : Int)]) = some true ∧
+    Martian.FormatRes.fmtGBgo (2 ^ 63) ≠ Martian.FormatRes.fmtGB (2 ^ 63) := by
+  set_option maxRecDepth 100000 in decide +kernel
+
+/-- Negative witness F29 in a FILE, real reading: `mem_gb = 256.04296875` (256 GB + 44 MB) is read
+as 262188 MB; only `fileMB32Valid` fails (F25's `fileMBValid` holds), so `fileHyps` = `fileHyps32`
+and `wfFile` fail — the domain of the round-trip theorems ends below 256 GB; the formatter prints
+`256.042`, which the real reader reads as 262187 MB — the output does not denote the same file (the
+exact reader of the model reads 262188 back: above 256 GB it is NOT the real parser). -/
+theorem accepted_file_float32_resource :
+    (parseFile32GH gSample hSample (ascii "filetype a;\nstage S(src py \"x\",) using (mem_gb = 256.04296875,)")).map
+      (fun f => !fileHyps f && !fileHyps32 f && !wfFile f && fileMBValid f && !fileMB32Valid f &&
+        fileStrsValid f && fileNoNegZero f && fileModsDistinct f && fileCallsDistinct f &&
+        fileMems f == [some 262188] &&
+        ((parseFile32GH gSample hSample (fmtFile f)).map fileMems == some [some 262187]) &&
+        ((parseFileGH gSample hSample (fmtFile f)).map fileMems == some [some 262188])) = some true := by
+  set_option maxRecDepth 100000 in decide +kernel
+
+/-- Negative witnesses F26 and F40 in a FILE: `call X(a = -0.0,)` after a filetype (only
+`fileNoNegZero` fails; printed `a = -0`, which reads back as the integer 0: not a fixed point) and
+`call X() using (local = true, local = false,)` (only `fileModsDistinct` fails; in the range
+`fileRaw`, outside `wfFile`). -/
+theorem accepted_file_negative_zero_duplicate_modifier :
+    (parseFileGH gSample hSample (ascii "filetype a;\ncall X(a = -0.0,)")).map
+      (fun f => !fileNoNegZero f && fileStrsValid f && fileMB32Valid f && fileModsDistinct f &&
+        fileCallsDistinct f && !wfFile f && fmtFile f == ascii "filetype a;\n\ncall X(\n    a = -0,\n)\n" &&
+        ((parseFileGH gSample hSample (fmtFile f)).map fmtFile ==
+          some (ascii "filetype a;\n\ncall X(\n    a = 0,\n)\n"))) = some true ∧
+    (parseFileGH gSample hSample (ascii "filetype a;\ncall X() using (local = true, local = false,)")).map
+      (fun f => !fileModsDistinct f && fileStrsValid f && fileNoNegZero f && fileMB32Valid f &&
+        fileCallsDistinct f && !wfFile f && fileRaw f) = some true := by
+  set_option maxRecDepth 100000 in decide +kernel
+
+end AcceptedFileTexts
 
 end Props.C09
